@@ -53,8 +53,23 @@ impl BlockAllocator {
         if data.offset >= MAX_FILE_SIZE {
             // mark previous file as fully allocated before switching
             FileStateTracker::set_fully_allocated(prev_block_file_path);
-            data.file_path = self.paths.create_new_file()?;
-            data.mmap = SharedMmapKeeper::get_mmap_arc(&data.file_path)?;
+            // Release the spin lock on failure, or every later allocation spins forever.
+            let new_file = match self.paths.create_new_file() {
+                Ok(p) => p,
+                Err(e) => {
+                    self.unlock();
+                    return Err(e);
+                }
+            };
+            let new_mmap = match SharedMmapKeeper::get_mmap_arc(&new_file) {
+                Ok(m) => m,
+                Err(e) => {
+                    self.unlock();
+                    return Err(e);
+                }
+            };
+            data.file_path = new_file;
+            data.mmap = new_mmap;
             data.offset = 0;
             data.used = 0;
             debug_print!("[alloc] rolled over to new file: {}", data.file_path);
@@ -104,8 +119,23 @@ impl BlockAllocator {
         let data = unsafe { &mut *self.next_block.get() };
         if data.offset + alloc_size > MAX_FILE_SIZE {
             let prev_block_file_path = data.file_path.clone();
-            data.file_path = self.paths.create_new_file()?;
-            data.mmap = SharedMmapKeeper::get_mmap_arc(&data.file_path)?;
+            // Release the spin lock on failure, or every later allocation spins forever.
+            let new_file = match self.paths.create_new_file() {
+                Ok(p) => p,
+                Err(e) => {
+                    self.unlock();
+                    return Err(e);
+                }
+            };
+            let new_mmap = match SharedMmapKeeper::get_mmap_arc(&new_file) {
+                Ok(m) => m,
+                Err(e) => {
+                    self.unlock();
+                    return Err(e);
+                }
+            };
+            data.file_path = new_file;
+            data.mmap = new_mmap;
             data.offset = 0;
             // mark the previous file fully allocated now
             FileStateTracker::set_fully_allocated(prev_block_file_path);
